@@ -341,7 +341,7 @@ func (u *unitCtx) stateUnit(st *TState) (err error) {
 			}
 		}
 		// R3: rest invariants
-		atRest := Or(Eq(res, evTerm("NoOp")), Eq(res, evTerm("Event_OnRetry")))
+		atRest := Or(Eq(res, evTerm("NoOp")), Eq(res, evTerm("Event_OnRetry")), Eq(res, evTerm("Event_Done")))
 		for k, inv := range u.invsFor(st, true) {
 			x.specDepth++
 			g := x.evalBool(inv.Clause.Expr, mkEnv(), rt.reach)
@@ -400,6 +400,11 @@ func (u *unitCtx) edgeUnits(st *TState) (err error) {
 	for _, ev := range nilEvents {
 		nxName, ok := st.Events[ev]
 		if !ok {
+			continue
+		}
+		if ev == "Event_ActionFailed" && !st.FailOnrecover && !st.hasActionType("AwaitTxConfirmationAction") {
+			// Event_ActionFailed comes from outside only through Recover (FailOnrecover
+			// states) and through the confirmation watcher's failure callback
 			continue
 		}
 		nx := u.tb.States[nxName]
@@ -504,6 +509,14 @@ func (u *unitCtx) edgeUnits(st *TState) (err error) {
 		if !needed {
 			continue
 		}
+		// SendEvent rejects an event the current state does not accept before it
+		// touches the swap data (obligation SendEvent#call[EventContext.
+		// ApplyToSwapData].pre[accepted]); only accepted (event, message) pairs
+		// can change the record.
+		applyAlways := !u.r.eng.applyOnlyAccepted()
+		if len(accepted) == 0 && !applyAlways {
+			continue
+		}
 		val := u.r.eng.funcs[u.pkg+"::("+cname+").Validate"]
 		app := u.r.eng.funcs[u.pkg+"::("+cname+").ApplyToSwapData"]
 		if val == nil {
@@ -584,6 +597,9 @@ func (u *unitCtx) edgeUnits(st *TState) (err error) {
 			for k, inv := range append(append([]*StateInv{}, entryS...), restS...) {
 				if !st.HasAction {
 					break // the initial state is left by its first event; nothing rests or recovers there
+				}
+				if !applyAlways {
+					break // an applied message always moves the machine on; the successor obligations cover it
 				}
 				x.specDepth++
 				g := x.evalBool(inv.Clause.Expr, envA, TTrue)
